@@ -13,10 +13,13 @@ KEYS = [
     # integer-valued expressions over numeric columns, some of them negative for some entries
     ("size + 1", "KNum"), ("size * 2", "KNum"), ("size % 1000", "KNum"), ("hardlinks + size", "KNum"), ("length(name) * 100", "KNum"),
     ("size - 50", "KNum"), ("length(name) - 10", "KNum"),
+    # ... with the number first (an expression, not a position, since fix 7b109d9) and with the column in the right operand only
+    ("1 + size", "KNum"), ("10 - length(name)", "KNum"), ("2 * size", "KNum"), ("1000 - size", "KNum"), ("3 * hardlinks + size", "KNum"),
     # date columns order chronologically; integer-valued functions of a date column order numerically
     ("modified", "KDate"), ("day(modified)", "KNum"), ("month(modified)", "KNum"), ("year(modified)", "KNum"),
 ]
-EXPR_KEYS = {"size + 1", "size * 2", "size % 1000", "hardlinks + size", "length(name) * 100", "size - 50", "length(name) - 10"}
+EXPR_KEYS = {"size + 1", "size * 2", "size % 1000", "hardlinks + size", "length(name) * 100", "size - 50", "length(name) - 10",
+             "1 + size", "10 - length(name)", "2 * size", "1000 - size", "3 * hardlinks + size"}
 
 COQ_HEADER = """From Coq Require Import List NArith ZArith Bool.
 From FS Require Import lib.Str lib.Res lib.Dec model.TopN model.Criteria model.Datetime.
